@@ -14,22 +14,26 @@ type LocalLock struct {
 	ctx      iface.OrdaContext
 	mutex    *golock.CASMutex
 	lockName string
+	locked   bool // whether this holder has the mutex; Unlock by somebody who does not hold it must not release it
 }
 
 // GetLocalLock returns a LocalLock with the specified name
 func GetLocalLock(ctx iface.OrdaContext, lockName string) *LocalLock {
 
-	value, loaded := localLockMap.LoadOrStore(lockName, &LocalLock{
-		ctx:      ctx,
-		mutex:    golock.NewCASMutex(),
-		lockName: lockName,
-	})
+	// Only the mutex is shared between the users of a lock name. Each user waits for it with its
+	// own context: the context of whoever asked first is cancelled as soon as that request returns,
+	// and a lock bound to it could never be waited for again.
+	value, loaded := localLockMap.LoadOrStore(lockName, golock.NewCASMutex())
 	if loaded {
 		ctx.L().Infof("[🔒] load lock '%v'", lockName)
 	} else {
 		ctx.L().Infof("[🔒] create lock '%v'", lockName)
 	}
-	return value.(*LocalLock)
+	return &LocalLock{
+		ctx:      ctx,
+		mutex:    value.(*golock.CASMutex),
+		lockName: lockName,
+	}
 }
 
 // TryLock tries to a local lock, and returns true if it succeeds; otherwise false
@@ -45,6 +49,7 @@ func (its *LocalLock) TryLock() bool {
 		return false
 	}
 
+	its.locked = true
 	ts, _ := timeCtx.Deadline()
 	its.ctx.L().Infof("[🔒] lock '%v': %v", its.lockName, ts)
 	return true
@@ -52,6 +57,11 @@ func (its *LocalLock) TryLock() bool {
 
 // Unlock unlocks the local lock, and returns true if it succeeds; otherwise false
 func (its *LocalLock) Unlock() bool {
+	if !its.locked {
+		its.ctx.L().Warnf("[🔒] unlock of '%v' without holding it", its.lockName)
+		return false
+	}
+	its.locked = false
 	its.mutex.Unlock()
 	its.ctx.L().Infof("[🔒] unlock '%v'", its.lockName)
 	return true
